@@ -153,6 +153,7 @@ def generate(rng, tier, index):
         ops.append(gen_op(rng, k, recipe, iterative, allow, p_each))
     if ops[-1]["op"] != "predict":
         ops.append(gen_predict(rng, recipe, iterative, allow, p_each))
+    core.sticky_bundles(rng, ops)
     return {"recipe": recipe, "ops": ops, "header": {"faulty": faulty, "iterative": iterative}}
 
 
